@@ -516,6 +516,11 @@ class Interp:
             return QIds(it)
         if isinstance(it, QList) and len(gen.ifs) == 1 and isinstance(e.elt, ast.Name) and isinstance(gen.target, ast.Name) and e.elt.id == gen.target.id:
             return self.qlist_filter(it, gen, env)
+        if isinstance(it, QList) and not gen.ifs and isinstance(e.elt, ast.Name) and isinstance(gen.target, ast.Name) and e.elt.id == gen.target.id \
+                and not isinstance(e, ast.GeneratorExp):
+            r = QList(it.n, it.src, it.idf, f"[{it.name}]")       # a copy: same elements, same order
+            if hasattr(it, "elem_attr"): r.elem_attr = it.elem_attr
+            return r
         if isinstance(it, QList) and not gen.ifs and isinstance(e, ast.GeneratorExp) and isinstance(gen.target, ast.Name):
             X = z3.Int("x!gen")
             env2 = dict(env); self.assign(gen.target, QElem(it, X), env2)
@@ -551,7 +556,16 @@ class Interp:
             x = self.formula_of(e.operand, env)
             return (not x) if isinstance(x, bool) else z3.Not(x)
         if isinstance(e, ast.Compare) and len(e.ops) == 1:
-            r = self.compare(e.ops[0], self.eval(e.left, env), self.eval(e.comparators[0], env))
+            lhs, rhs = self.eval(e.left, env), self.eval(e.comparators[0], env)
+            if isinstance(e.ops[0], (ast.In, ast.NotIn)) and isinstance(rhs, QIds) and isinstance(lhs, PyNum):
+                k = self.eng.fresh("k_in", I)
+                lo = rhs.lo if rhs.lo is not None else z3.IntVal(0)
+                hi = rhs.hi if rhs.hi is not None else rhs.lst.n
+                f_ = z3.Exists([k], z3.And(lo <= k, k < hi, rhs.lst.idf(rhs.lst.src(k)) == lhs.z))
+                return f_ if isinstance(e.ops[0], ast.In) else z3.Not(f_)
+            if isinstance(e.ops[0], (ast.In, ast.NotIn)) and isinstance(rhs, list) and not rhs:
+                return isinstance(e.ops[0], ast.NotIn)
+            r = self.compare(e.ops[0], lhs, rhs)
             if isinstance(r, bool) or (z3.is_expr(r) and r.sort() == B): return r
         if isinstance(e, ast.Call) and isinstance(e.func, ast.Name) and e.func.id == "isinstance" and len(e.args) == 2:
             r = self.isinstance(self.eval(e.args[0], env), self.eval(e.args[1], env))
@@ -574,6 +588,7 @@ class Interp:
         pos = z3.Function(f"filter{k}.pos", I, I); wit = z3.Function(f"filter{k}.wit", I, I)
         R = QList(n, lambda p, pos=pos, L=L: L.src(pos(p)), L.idf, f"[{L.name} if ...]")
         R.filter_of = (L, pos, wit, keep)
+        if hasattr(L, "elem_attr"): R.elem_attr = L.elem_attr
         p_, q_, j_ = z3.Ints("p!f q!f j!f")
         eng.assume_def(z3.And(n >= 0, n <= L.n))
         eng.assume_def(z3.ForAll([p_], z3.Implies(z3.And(0 <= p_, p_ < n), z3.And(0 <= pos(p_), pos(p_) < L.n, keep(L.src(pos(p_)))))))
@@ -615,6 +630,9 @@ class Interp:
         if isinstance(a, Opt): a = self.resolve_opt(a)
         if isinstance(b, Opt): b = self.resolve_opt(b)
         if isinstance(op, (ast.Is, ast.IsNot)):
+            if hasattr(a, "vf_is_none") and b is NONE:
+                r = a.vf_is_none
+                return r if isinstance(op, ast.Is) else z3.Not(r)
             if isinstance(a, QElem) and isinstance(b, QElem):      # the same element of the universe, whatever python wrapper carries it
                 r = a.j == b.j
                 return r if isinstance(op, ast.Is) else z3.Not(r)
@@ -802,6 +820,8 @@ class Interp:
             return PyNum((o.payload * 60) % 86400)     # timedelta.seconds: seconds part only (days dropped), ticks are minutes
         if isinstance(o, QElem):
             if name == "id": return PyNum(o.lst.idf(o.j))
+            rd = getattr(o.lst, "elem_attr", None)
+            if rd is not None: return rd(self, o.j, name)
             raise Unsupported(f"attribute {name} of a chain element")
         if isinstance(o, QList): return BoundMethod(o, name)
         if isinstance(o, (Arr, PintAccessor, SDict, SList, KDict, list, str, Label, Unit, Opaque, tuple, ILoc)):
@@ -1000,6 +1020,17 @@ class Interp:
         if isinstance(a, (Label, str)) and isinstance(b, (Label, str)) and tname == "Add":
             return Label(_ne(a) or _ne(b))
         if isinstance(a, list) and isinstance(b, list) and tname == "Add": return a + b
+        if tname == "Add" and isinstance(b, QList) and (isinstance(a, QList) or (isinstance(a, list) and not a)):
+            if isinstance(a, list): a = QList(z3.IntVal(0), b.src, b.idf, "[]")
+            n1, s1, s2 = a.n, a.src, b.src
+            r = QList(n1 + b.n, lambda p, n1=n1, s1=s1, s2=s2: z3.If(p < n1, s1(p), s2(p - n1)), b.idf, f"{a.name}+{b.name}")
+            r.concat_of = (a, b)
+            if hasattr(b, "elem_attr"): r.elem_attr = b.elem_attr
+            return r
+        if tname == "Add" and isinstance(a, QList) and isinstance(b, list) and all(isinstance(x, QElem) for x in b):
+            r = QList(a.n, a.src, a.idf, a.name)
+            for x in b: self.call_bound(r, "append", [x], {})
+            return r
         if isinstance(a, Expl):
             meth = {"Add": "__add__", "Sub": "__sub__", "Mult": "__mul__", "Div": "__truediv__"}.get(tname)
             if meth is None: raise Unsupported(f"operator {tname} on explainable")
